@@ -244,7 +244,7 @@ Section Parse.
               match racc with
               | a :: racc' =>
                   match parse_counted x s' with
-                  | Some (lo, hi, r) => if lazy_follows r then None else p_seq f x top r (RRep a lo hi :: racc') ralts
+                  | Some (lo, hi, r) => if lazy_follows (bump x r) then None else p_seq f x top r (RRep a lo hi :: racc') ralts
                   | None => None
                   end
               | [] => None
